@@ -52,7 +52,7 @@ def evaluate_one(case):
         running = others = 0
         for m in fe:
             en, ex = ix.enter(m['id']), ix.exit(m['id'])
-            if en is not None and (ex is None or ex['how'] == 'cancelled'):
+            if en is not None and (ex is None or ex['how'].startswith('cancelled')):
                 running += 1
             else:
                 others += 1
